@@ -218,6 +218,28 @@ def set_config_value(config: dict[str, Any], key: str, value: Any, verbose: bool
     logger.debug(f"Overriding {key} to {value}")
 
 
+def set_config_value_for_languages(
+    config: dict[str, Any], key: str, value: Any, verbose: bool
+) -> None:
+    """Set a config value in the section and in every per-language override of it.
+
+    A command-line threshold takes precedence over the whole config file, including
+    language-specific sub-sections such as ``python: {max_methods: 20}``.
+
+    Args:
+        config: Linter config section to update
+        key: Config key to set
+        value: Value to set (skipped if None)
+        verbose: Whether to log the override
+    """
+    if value is None:
+        return
+    set_config_value(config, key, value, verbose)
+    for language_config in config.values():
+        if isinstance(language_config, dict) and key in language_config:
+            language_config[key] = value
+
+
 def filter_violations_by_prefix(violations: list[Violation], prefix: str) -> list[Violation]:
     """Filter violations to those matching a rule ID prefix.
 
